@@ -897,3 +897,35 @@ package quickfix
 //@   ensures @logout session.application.#logouts == old(session.application.#logouts) + (old(stconnected(session.State)) && old(stnotifies(session)) ? 1 : 0)
 //@   ensures @gone old(stconnected(session.State)) ==> session.messageOut == nil && sm.State is latentState
 //@   ensures @idle !old(stconnected(session.State)) ==> sm.State == old(sm.State)
+
+// ---- dispatch on the state interface (closed world: every implementation in the package is checked) -------------
+//@ iface sessionState.FixMsgIn(recv, session, msg) [C01,C08]
+//@   requires @sess sessfull(session)
+//@   requires @bound session.store.#T < MaxInt64
+//@   requires @msg msgok(msg)
+//@   requires @st stok(recv)
+//@   requires [C08] @flush !stnotlogged(session.State) || len(session.toSend) == 0
+//@   ensures @next result != nil && stok(result)
+//@   ensures @sess sessfull(session) && session.State == old(session.State)
+//@   freshonly Gh.chan.closed, H.quickfix.stateMachine.*
+//@   closedworld
+
+//@ iface sessionState.Timeout(recv, session, event) [C08,C20]
+//@   requires @sess sessfull(session)
+//@   requires @st stok(recv)
+//@   ensures @next result != nil && stok(result)
+//@   ensures @sess sessfull(session) && session.State == old(session.State)
+//@   freshonly Gh.chan.closed, H.quickfix.stateMachine.*
+//@   closedworld
+
+// resendState.FixMsgIn against the interface contract: stated, not verified (see the note on resendState above)
+//@ func (s resendState) FixMsgIn [C01,C04]
+//@   trusted
+//@   implements sessionState.FixMsgIn
+
+// fixMsgIn: the state's handler decides the next state; leaving a connected state goes through setState
+//@ func (sm *stateMachine) fixMsgIn [C01,C08]
+//@   requires @sess sessfull(session) && sm == &session.stateMachine
+//@   requires @bound session.store.#T < MaxInt64
+//@   requires @msg msgok(m)
+//@   requires @chan session.notifyOnInSessionTime != nil ==> !closed(session.notifyOnInSessionTime) && allocated(session.notifyOnInSessionTime)
